@@ -44,7 +44,9 @@ func plainCues(r *rng, n int) []srtCue {
 	var cues []srtCue
 	var t int64
 	for i := 0; i < n; i++ {
-		t += r.rangeI(0, 4000)
+		if t != 0 || !r.chance(1, 6) { // often a first cue at the very start
+			t += r.rangeI(0, 4000)
+		}
 		e := t + r.rangeI(40, 6000)
 		c := srtCue{start: t, end: e}
 		for l := 1 + r.intn(2); l > 0; l-- {
